@@ -40,6 +40,8 @@ type Prepared struct {
 	Model *gen.Model
 	Spec  oracle.TSpec
 	InDom bool // at least one column, and the column count is unambiguous
+	// BadNCols is set (to the reported value) when NColumns() disagrees with the build history.
+	BadNCols int
 }
 
 func Prepare(c Case) Prepared {
@@ -47,6 +49,10 @@ func Prepare(c Case) Prepared {
 	p := Prepared{Model: m}
 	n := m.NCols()
 	if n == 0 || n != m.MaxEver {
+		return p
+	}
+	if t.NColumns() != n {
+		p.BadNCols = t.NColumns()
 		return p
 	}
 	p.InDom = true
@@ -72,6 +78,9 @@ func Prepare(c Case) Prepared {
 func Check(c Case) *ev.Violation {
 	p := Prepare(c)
 	if !p.InDom {
+		if p.Model.NCols() > 0 && p.Model.NCols() == p.Model.MaxEver {
+			return ev.V("NColumns()=%d but the build history has %d columns", p.BadNCols, p.Model.NCols())
+		}
 		return nil
 	}
 	out, err := p.TT.Render()
